@@ -15,6 +15,7 @@ def eff_par(cfg):
 
 
 class ParDoSpec(SeqSpec):
+    ctx_zoo = True      # contexts come from the zoo (cause / DeadlineExceeded / plain), see vlib.apply_ctx_zoo
     component = "pardo"
     imports = "From Juniper Require Import Common.Base Conc.GoLTS Conc.ParDo.\nFrom Juniper Require Conc.ParDoMatcherComplete."
     # M: the (reduced) matcher, strict. rejections-certified (informational): every rejection is certified genuine by the
